@@ -243,7 +243,11 @@ func TestReplay(t *testing.T) {
 	warmupProp(t, p)
 	out := p.Run(t, c, verbose)
 	if verbose {
-		for _, l := range out.Trace {
+		tr := out.Trace
+		if n := int(envInt("VERIF_TRACE_TAIL", 0)); n > 0 && len(tr) > n {
+			tr = tr[len(tr)-n:]
+		}
+		for _, l := range tr {
 			fmt.Println(l)
 		}
 		for _, l := range out.Notes {
